@@ -132,7 +132,7 @@ def run(tier):
                 for n, a, alts in asked:
                     for alt in alts:
                         # children that add a form instance, change a count/flag, or type adversarial text
-                        if n.split('.')[1].startswith('number_') or alt in (e3.ADV_TEXT, e3.ADV_TEXT2, e3.ADV_TEXT3) or alt == 'yes':
+                        if n.split('.')[1].startswith('number_') or alt in (e3.ADV_TEXT, e3.ADV_TEXT2, e3.ADV_TEXT3, e3.ADV_TEXT4) or alt == 'yes':
                             kids.append({n: alt})
             for a in kids:
                 for start in ('empty', 'half', 'all'):
